@@ -635,12 +635,28 @@ def run_compile_snippets(run, cfg):
     return None
 
 
+def run_verus_multi(run, cfg):
+    """several independent assembled files (template sets) for one property"""
+    und = None
+    for i, ts in enumerate(cfg["template_sets"]):
+        c = dict(cfg)
+        c["templates"] = ts
+        c["_name"] = "all%d" % i
+        u = None
+        try:
+            u = run_verus_property(run, c)
+        except Undecided as e:
+            u = str(e)
+        und = und or u
+    return und
+
+
 def run_verus_property(run, cfg):
     expanded = None
     ex = cfg.get("expand")
     for pkg in (["push"] if ex is True else (ex or [])):
         expanded = run.expand(pkg)
-    path = run.extract(cfg["templates"], expanded=expanded)
+    path = run.extract(cfg["templates"], name=cfg.get("_name", "all"), expanded=expanded)
     run.scan_assumptions(path)
     extra = run.ensure_extern() if cfg.get("extern") else []
     failures = run.verus(path, extra=extra)
